@@ -65,7 +65,6 @@ func (o *c20Obj) Resolve(b merkle.Builder) error {
 func (o *c20Obj) OnData(v []byte, b merkle.Builder) error { return nil }
 func (o *c20Obj) ClearCache()                             {}
 
-
 func init() {
 	Register(&Prop{ID: "C20", Gen: c20Gen, New: func() Runner { return &c20Runner{} }})
 }
@@ -174,49 +173,92 @@ func c20ItemBytes(it []byte) []byte {
 	return it[h:]
 }
 
-// c20RefsObj: as c20Refs plus, after the children, the blob referenced by the node's own value
-// (branch value / leaf value); a blob payload (first byte 0x00) has no refs.
-func c20RefsObj(payload []byte) ([][]byte, bool) {
-	if len(payload) > 0 && payload[0] == 0x00 {
-		return nil, true
-	}
-	refs, ok := c20Refs(payload)
+// c20RefsObj: what the requester of a trie node of an object-valued trie asks for: the hash-link
+// children (MerkleTrie bucket), then the blob referenced by the node's own value (branch value /
+// leaf value; BytesByHash bucket). nBlob = number of trailing blob references.
+func c20RefsObj(payload []byte) (refs [][]byte, nBlob int, ok bool) {
+	refs, ok = c20Refs(payload)
 	if !ok {
-		return nil, false
+		return nil, 0, false
 	}
 	items, _ := c20Items(payload)
 	switch len(items) {
 	case 17:
 		if h := c20ValRef(c20ItemBytes(items[16])); h != nil {
 			refs = append(refs, h)
+			nBlob++
 		}
 	case 2:
 		hdr := c20ItemBytes(items[0])
 		if len(hdr) > 0 && hdr[0]&0x20 != 0 {
 			if h := c20ValRef(c20ItemBytes(items[1])); h != nil {
 				refs = append(refs, h)
+				nBlob++
 			}
 		}
 	}
-	return refs, true
+	return refs, nBlob, true
 }
 
-func c20RefsWire(payload []byte, obj bool) string {
-	refs, ok := c20Refs(payload)
+type c20Ref struct {
+	bkt db.BucketID
+	key string
+}
+
+// c20RefsFor: references asked for by the requester registered for bucket bkt after it got
+// payload (harness's own parser; a blob requester asks for nothing).
+func c20RefsFor(bkt db.BucketID, payload []byte, obj bool) ([]c20Ref, bool) {
+	if bkt != db.MerkleTrie {
+		return nil, true
+	}
+	var hs [][]byte
+	nBlob := 0
+	var ok bool
 	if obj {
-		refs, ok = c20RefsObj(payload)
+		hs, nBlob, ok = c20RefsObj(payload)
+	} else {
+		hs, ok = c20Refs(payload)
 	}
 	if !ok {
-		return "X"
+		return nil, false
 	}
-	if len(refs) == 0 {
+	out := make([]c20Ref, len(hs))
+	for i, h := range hs {
+		b := db.MerkleTrie
+		if i >= len(hs)-nBlob {
+			b = db.BytesByHash
+		}
+		out[i] = c20Ref{b, string(h)}
+	}
+	return out, true
+}
+
+// c20RefsWire: the references asked for by the requesters of buckets bkts, in serving order.
+func c20RefsWire(payload []byte, obj bool, bkts []db.BucketID) string {
+	var ss []string
+	for _, b := range bkts {
+		refs, ok := c20RefsFor(b, payload, obj)
+		if !ok {
+			return "X"
+		}
+		for _, r := range refs {
+			ss = append(ss, hx([]byte(r.key)))
+		}
+	}
+	if len(ss) == 0 {
 		return "-"
 	}
-	ss := make([]string, len(refs))
-	for i, r := range refs {
-		ss[i] = hx(r)
-	}
 	return strings.Join(ss, ",")
+}
+
+func c20BktDigit(b db.BucketID) string {
+	switch b {
+	case db.MerkleTrie:
+		return "0"
+	case db.BytesByHash:
+		return "1"
+	}
+	return "?"
 }
 
 // ---- recording database: every Set that reaches the destination store is logged ----
@@ -254,10 +296,20 @@ func (b *c20RecBucket) Set(k, v []byte) error {
 
 type c20Source struct {
 	pairs map[string][]byte
-	nodes map[string][]byte // hash -> payload, every node reachable from root (and, in object mode, every referenced blob)
-	blobs map[string][]byte // hash -> blob (object mode)
+	trie  map[string][]byte // hash -> payload: every node of the source trie (MerkleTrie bucket)
+	blobs map[string][]byte // hash -> blob: every blob referenced by a value (BytesByHash bucket)
 	root  []byte
 }
+
+// payload of key h in either bucket (a key present in both has the same bytes: one hasher)
+func (s *c20Source) payload(h string) []byte {
+	if p, ok := s.trie[h]; ok {
+		return p
+	}
+	return s.blobs[h]
+}
+
+func (s *c20Source) size() int { return len(s.trie) + len(s.blobs) }
 
 // blobs: candidate blobs by hash; a value 0x01++h refers to blobs[h]
 func c20BuildSource(pairs map[string][]byte, obj bool, blobs map[string][]byte) *c20Source {
@@ -299,12 +351,11 @@ func c20BuildSource(pairs map[string][]byte, obj bool, blobs map[string][]byte) 
 		}
 		root = ss.Hash()
 	}
-	s := &c20Source{pairs: pairs, nodes: map[string][]byte{}, blobs: map[string][]byte{}, root: root}
+	s := &c20Source{pairs: pairs, trie: map[string][]byte{}, blobs: map[string][]byte{}, root: root}
 	for k, v := range rec.sets[db.MerkleTrie] {
-		s.nodes[k] = v
+		s.trie[k] = v
 	}
 	for k, v := range rec.sets[db.BytesByHash] {
-		s.nodes[k] = v
 		s.blobs[k] = v
 	}
 	return s
@@ -322,6 +373,146 @@ func c20Key(g *Gen) []byte {
 	return k
 }
 
+// c20Sim is the generator's own bookkeeping of what is outstanding (per key, the buckets that
+// asked, in order) and what is stored (per bucket), so that it can steer delivery histories.
+// It only decides which ops are written; expectations come from the model and the oracles.
+type c20Sim struct {
+	src    *c20Source
+	obj    bool
+	order  []string                 // outstanding keys
+	pend   map[string][]db.BucketID // key -> requesting buckets
+	stored map[c20Ref]bool
+	done   map[string]bool // delivered at least once
+}
+
+func (m *c20Sim) request(r c20Ref) {
+	if m.stored[r] {
+		return
+	}
+	if len(m.pend[r.key]) == 0 {
+		m.order = append(m.order, r.key)
+	}
+	m.pend[r.key] = append(m.pend[r.key], r.bkt)
+}
+
+func (m *c20Sim) deliver(h string) {
+	bkts := m.pend[h]
+	delete(m.pend, h)
+	for i, k := range m.order {
+		if k == h {
+			m.order = append(m.order[:i:i], m.order[i+1:]...)
+			break
+		}
+	}
+	m.done[h] = true
+	p := m.src.payload(h)
+	for _, b := range bkts {
+		m.stored[c20Ref{b, h}] = true
+		refs, _ := c20RefsFor(b, p, m.obj)
+		for _, r := range refs {
+			if r.key != h {
+				m.request(r)
+			}
+		}
+	}
+}
+
+// c20Dual describes the hash that is needed both as a trie node and as a blob.
+type c20Dual struct {
+	key       string
+	parents   map[string]bool // trie nodes linking to it as a child
+	referrers map[string]bool // trie nodes whose value refers to it as a blob
+	hold      bool            // deliver it only when both buckets ask for it
+	blobFirst bool            // register the blob request before the node request
+	twice     bool
+}
+
+// c20AddDual extends pairs by one key whose value refers to a blob that is byte-identical to a
+// hashed node L of the trie, so that hash(L) is needed in both buckets. Returns nil if the
+// trie has no suitable node or L does not survive the insertion.
+func c20AddDual(g *Gen, pairs map[string][]byte, blobs map[string][]byte, blobOrder *[][]byte) *c20Dual {
+	src0 := c20BuildSource(pairs, true, blobs)
+	var leaves, others []string
+	hs := make([]string, 0, len(src0.trie))
+	for h := range src0.trie {
+		hs = append(hs, h)
+	}
+	sort.Strings(hs)
+	for _, h := range hs {
+		if h == string(src0.root) {
+			continue
+		}
+		if _, isBlob := src0.blobs[h]; isBlob {
+			continue
+		}
+		items, ok := c20Items(src0.trie[h])
+		if ok && len(items) == 2 {
+			if hdr := c20ItemBytes(items[0]); len(hdr) > 0 && hdr[0]&0x20 != 0 {
+				leaves = append(leaves, h)
+				continue
+			}
+		}
+		others = append(others, h)
+	}
+	cands := leaves
+	if len(cands) == 0 || (len(others) > 0 && g.Intn(5) == 0) {
+		cands = others
+	}
+	if len(cands) == 0 {
+		return nil
+	}
+	K := cands[g.Intn(len(cands))]
+	L := src0.trie[K]
+	// a key under a first nibble nobody uses only changes the root branch
+	used := map[byte]bool{}
+	for k := range pairs {
+		if len(k) > 0 {
+			used[k[0]>>4] = true
+		}
+	}
+	var free []byte
+	for n := byte(0); n < 16; n++ {
+		if !used[n] {
+			free = append(free, n)
+		}
+	}
+	nk := c20Key(g)
+	if len(free) > 0 && len(nk) > 0 {
+		nk[0] = free[g.Intn(len(free))]<<4 | nk[0]&0x0f
+	}
+	if _, dup := pairs[string(nk)]; dup {
+		return nil
+	}
+	pairs[string(nk)] = append([]byte{0x01}, K...)
+	_, hadBlob := blobs[K]
+	blobs[K] = L
+	src := c20BuildSource(pairs, true, blobs)
+	if !bytes.Equal(src.trie[K], L) || !bytes.Equal(src.blobs[K], L) {
+		delete(pairs, string(nk))
+		if !hadBlob {
+			delete(blobs, K)
+		}
+		return nil
+	}
+	*blobOrder = append(*blobOrder, L)
+	d := &c20Dual{key: K, parents: map[string]bool{}, referrers: map[string]bool{}}
+	for h, p := range src.trie {
+		refs, _ := c20RefsFor(db.MerkleTrie, p, true)
+		for _, r := range refs {
+			if r.key == K && r.bkt == db.MerkleTrie {
+				d.parents[h] = true
+			}
+			if r.key == K && r.bkt == db.BytesByHash {
+				d.referrers[h] = true
+			}
+		}
+	}
+	d.hold = g.Intn(4) > 0
+	d.blobFirst = g.Intn(2) == 0
+	d.twice = g.Intn(3) == 0
+	return d
+}
+
 func c20Gen(g *Gen) {
 	for c := 0; c < g.N; c++ {
 		g.Emit("reset")
@@ -329,6 +520,14 @@ func c20Gen(g *Gen) {
 		np := g.Pick(0, 1, 2, 3, 5, 8, 13, 30, 60)
 		if g.Tier == "thorough" && g.Intn(4) == 0 {
 			np = 100 + g.Intn(300)
+		}
+		// every 4th case (and half of the other object cases) has a hash needed in both buckets
+		wantDual := c%4 == 1 || (obj && g.Intn(2) == 0)
+		if wantDual {
+			obj = true
+			if np < 2 {
+				np = g.Pick(2, 3, 5, 8, 13)
+			}
 		}
 		pairs := map[string][]byte{}
 		blobs := map[string][]byte{}
@@ -366,6 +565,10 @@ func c20Gen(g *Gen) {
 			}
 			pairs[string(k)] = v
 		}
+		var dual *c20Dual
+		if wantDual {
+			dual = c20AddDual(g, pairs, blobs, &blobOrder)
+		}
 		keys := make([]string, 0, len(pairs))
 		for k := range pairs {
 			keys = append(keys, k)
@@ -385,32 +588,83 @@ func c20Gen(g *Gen) {
 		} else {
 			g.Emit("begin %s", hx(src.root))
 		}
-		refsOf := c20Refs
-		if obj {
-			refsOf = c20RefsObj
+		sim := &c20Sim{src: src, obj: obj, pend: map[string][]db.BucketID{}, stored: map[c20Ref]bool{}, done: map[string]bool{}}
+		if src.root != nil {
+			sim.request(c20Ref{db.MerkleTrie, string(src.root)})
 		}
-		emitData := func(p []byte) {
-			if _, isBlob := src.blobs[string(crypto.SHA3Sum256(p))]; isBlob {
+		// the bucket a payload is delivered for only selects the hasher; mostly the bucket that
+		// asked, for a key asked by both either one, sometimes the other one (service/sync
+		// delivers everything as BytesByHash)
+		bothOf := func(bk []db.BucketID) (has0, has1 bool) {
+			for _, b := range bk {
+				if b == db.MerkleTrie {
+					has0 = true
+				} else {
+					has1 = true
+				}
+			}
+			return
+		}
+		emitData := func(h string) {
+			p := src.payload(h)
+			has0, has1 := bothOf(sim.pend[h])
+			var asBlob bool
+			switch {
+			case !has0 && !has1:
+				_, asBlob = src.blobs[h]
+				if _, both := src.trie[h]; both && asBlob {
+					asBlob = g.Intn(2) == 0
+				}
+			case has0 && has1:
+				asBlob = g.Intn(2) == 0
+			default:
+				asBlob = has1
+			}
+			if g.Intn(8) == 0 {
+				asBlob = !asBlob
+			}
+			if asBlob {
 				g.Emit("datab %s", hx(p))
 			} else {
 				g.Emit("data %s", hx(p))
 			}
 		}
-		// frontier computed with the harness's own parser, independent of the builder
-		frontier := [][]byte{}
-		inFrontier := map[string]bool{}
-		done := map[string]bool{}
-		if src.root != nil {
-			frontier = append(frontier, src.root)
-			inFrontier[string(src.root)] = true
+		anyDone := func(m map[string]bool) bool {
+			for h := range m {
+				if sim.done[h] {
+					return true
+				}
+			}
+			return false
 		}
-		allHashes := make([]string, 0, len(src.nodes))
-		for h := range src.nodes {
+		held := func(h string) bool {
+			if dual == nil {
+				return false
+			}
+			if h == dual.key {
+				if !dual.hold {
+					return false
+				}
+				has0, has1 := bothOf(sim.pend[h])
+				return !(has0 && has1)
+			}
+			if dual.blobFirst {
+				return dual.parents[h] && !anyDone(dual.referrers)
+			}
+			return dual.referrers[h] && !anyDone(dual.parents)
+		}
+		allHashes := make([]string, 0, src.size())
+		for h := range src.trie {
 			allHashes = append(allHashes, h)
+		}
+		for h := range src.blobs {
+			if _, both := src.trie[h]; !both {
+				allHashes = append(allHashes, h)
+			}
 		}
 		sort.Strings(allHashes)
 		stopEarly := g.Intn(6) == 0
-		for len(frontier) > 0 {
+		for len(sim.order) > 0 {
 			if stopEarly && g.Intn(4) == 0 {
 				break
 			}
@@ -425,34 +679,36 @@ func c20Gen(g *Gen) {
 			case 1: // genuine node that is not (or no longer) requested: duplicate or premature
 				if len(allHashes) > 0 {
 					h := allHashes[g.Intn(len(allHashes))]
-					if !inFrontier[h] {
-						emitData(src.nodes[h])
+					if len(sim.pend[h]) == 0 {
+						emitData(h)
 					}
 				}
 				continue
 			case 2: // a requested node with one byte altered
-				h := frontier[g.Intn(len(frontier))]
-				p := append([]byte{}, src.nodes[string(h)]...)
+				h := sim.order[g.Intn(len(sim.order))]
+				p := append([]byte{}, src.payload(h)...)
 				p[g.Intn(len(p))] ^= byte(1 << uint(g.Intn(8)))
 				g.Emit("data %s", hx(p))
 				continue
 			}
-			i := g.Intn(len(frontier))
+			cands := make([]string, 0, len(sim.order))
+			for _, h := range sim.order {
+				if !held(h) {
+					cands = append(cands, h)
+				}
+			}
+			if len(cands) == 0 {
+				cands = sim.order
+			}
+			i := g.Intn(len(cands))
 			if g.Intn(3) == 0 {
 				i = 0
 			}
-			h := frontier[i]
-			frontier = append(frontier[:i], frontier[i+1:]...)
-			delete(inFrontier, string(h))
-			done[string(h)] = true
-			p := src.nodes[string(h)]
-			emitData(p)
-			refs, _ := refsOf(p)
-			for _, r := range refs {
-				if !done[string(r)] && !inFrontier[string(r)] {
-					frontier = append(frontier, r)
-					inFrontier[string(r)] = true
-				}
+			h := cands[i]
+			emitData(h)
+			sim.deliver(h)
+			if dual != nil && h == dual.key && dual.twice {
+				emitData(h) // the same payload once more: nobody asks any longer
 			}
 		}
 		g.Emit("finish")
@@ -468,7 +724,7 @@ type c20Runner struct {
 	src     *c20Source
 	dst     *c20RecDB
 	b       merkle.Builder
-	forged  [][]byte
+	served  map[string]int // key -> number of accepted deliveries
 	started bool
 }
 
@@ -479,7 +735,11 @@ func (r *c20Runner) render(tag string) string {
 		if len(k) > 4 {
 			k = k[:4]
 		}
-		ks = append(ks, fmt.Sprintf("%x", k))
+		s := fmt.Sprintf("%x/", k)
+		for _, b := range it.BucketIDs() {
+			s += c20BktDigit(b)
+		}
+		ks = append(ks, s)
 	}
 	// the order of outstanding requests is not part of the property: compare as a set
 	sort.Strings(ks)
@@ -510,6 +770,7 @@ func (r *c20Runner) Step(t []string, o *Oracle) string {
 			r.pairs = map[string][]byte{}
 		}
 		r.started = true
+		r.served = map[string]int{}
 		r.obj = t[0] == "begin-obj"
 		r.src = c20BuildSource(r.pairs, r.obj, r.blobs)
 		r.dst = &c20RecDB{Database: db.NewMapDB(), sets: map[db.BucketID]map[string][]byte{}}
@@ -521,7 +782,16 @@ func (r *c20Runner) Step(t []string, o *Oracle) string {
 			ompt.NewImmutable(r.b.Database(), r.src.root).Resolve(r.b)
 			o.Count("bytes-trie")
 		}
-		o.Count(fmt.Sprintf("source-nodes-%s", c20Bucket(len(r.src.nodes))))
+		o.Count(fmt.Sprintf("source-nodes-%s", c20Bucket(r.src.size())))
+		nboth := 0
+		for k := range r.src.blobs {
+			if _, ok := r.src.trie[k]; ok {
+				nboth++
+			}
+		}
+		if nboth > 0 {
+			o.Count("source-has-key-in-both-buckets")
+		}
 		o.Check(bytes.Equal(r.src.root, unhx(t[1])) || (len(r.src.root) == 0 && t[1] == "-"), "source-root-differs-from-generator", "root %x vs op %s", r.src.root, t[1])
 		return r.render("ok")
 	case len(t) == 2 && (t[0] == "data" || t[0] == "datab") && r.started:
@@ -532,9 +802,11 @@ func (r *c20Runner) Step(t []string, o *Oracle) string {
 		v := unhx(t[1])
 		h := crypto.SHA3Sum256(v)
 		requested := false
+		var bkts []db.BucketID
 		for it := r.b.Requests(); it.Next(); {
 			if bytes.Equal(it.Key(), h) {
 				requested = true
+				bkts = append([]db.BucketID{}, it.BucketIDs()...)
 			}
 		}
 		err := r.b.OnData(bucket, v)
@@ -546,46 +818,73 @@ func (r *c20Runner) Step(t []string, o *Oracle) string {
 			tag = "err"
 		}
 		o.Count("ondata-" + tag)
-		if _, genuine := r.src.nodes[string(h)]; !genuine {
-			r.forged = append(r.forged, h)
-		}
 		// property oracle: accepted exactly when its hash was outstanding
 		o.Check((err == nil) == requested || (err != nil && err != merkle.ErrNoRequester), "ondata-accepts-iff-requested",
 			"OnData(%x…) err=%v but requested=%v", h[:4], err, requested)
 		if err != nil {
 			return r.render(tag)
 		}
-		// refs of an accepted payload, from the harness's own parser (cross-checks the model's decoder)
-		return r.render(tag) + " refs=" + c20RefsWire(v, r.obj)
+		distinct := map[db.BucketID]bool{}
+		for _, b := range bkts {
+			distinct[b] = true
+		}
+		if len(distinct) > 1 {
+			o.Count(fmt.Sprintf("served-both-buckets-first-%s-delivered-as-%s", c20BktDigit(bkts[0]), c20BktDigit(bucket)))
+		} else if len(bkts) > 0 && bkts[0] != bucket {
+			o.Count("served-delivered-as-other-bucket")
+		}
+		r.served[string(h)]++
+		if r.served[string(h)] == 2 {
+			o.Count("key-served-twice-for-different-buckets")
+		}
+		// refs asked for by the served requesters, from the harness's own parser (cross-checks
+		// the model's decoder)
+		return r.render(tag) + " refs=" + c20RefsWire(v, r.obj, bkts)
 	case len(t) == 1 && t[0] == "finish" && r.started:
 		un := r.b.UnresolvedCount()
 		if err := r.b.Flush(true); err != nil {
 			return "err"
 		}
-		stored := map[string][]byte{}
+		srcOf := func(bkt db.BucketID) map[string][]byte {
+			switch {
+			case bkt == db.MerkleTrie:
+				return r.src.trie
+			case bkt == db.BytesByHash && r.obj:
+				return r.src.blobs
+			}
+			return nil
+		}
+		// oracle 1: nothing but requested data is stored: every stored key is the hash of its
+		// value, and is part of the trusted state *of that bucket*
+		nstored := 0
 		for bkt, m := range r.dst.sets {
 			o.Check(bkt == db.MerkleTrie || (r.obj && bkt == db.BytesByHash) || len(m) == 0, "stored-in-foreign-bucket", "bucket %q received %d entries", bkt, len(m))
 			for k, v := range m {
-				stored[k] = v
-				_, isBlob := r.src.blobs[k]
-				o.Check(isBlob == (bkt == db.BytesByHash), "stored-in-wrong-bucket", "key %x stored in bucket %q", k, bkt)
+				nstored++
+				o.Check(bytes.Equal(crypto.SHA3Sum256(v), []byte(k)), "stored-key-is-hash-of-value", "stored %x is not sha3 of its value", k)
+				_, inTrie := r.src.trie[k]
+				_, inBlobs := r.src.blobs[k]
+				o.Check(inTrie || inBlobs, "stored-unrequested-data", "stored key %x (bucket %q) is not part of the trusted state", k, bkt)
+				if inTrie || inBlobs {
+					_, here := srcOf(bkt)[k]
+					o.Check(here, "stored-in-wrong-bucket", "key %x stored in bucket %q where the trusted state does not have it", k, bkt)
+				}
 			}
 		}
-		// oracle 1: nothing but requested data is stored: every stored key is the hash of its
-		// value and is a node (or referenced blob) of the trusted state
-		for k, v := range stored {
-			o.Check(bytes.Equal(crypto.SHA3Sum256(v), []byte(k)), "stored-key-is-hash-of-value", "stored %x is not sha3 of its value", k)
-			_, ok := r.src.nodes[k]
-			o.Check(ok, "stored-unrequested-data", "stored key %x is not part of the trusted state", k)
-		}
-		// oracle 2: no outstanding requests <=> the store holds the complete state
-		complete := len(stored) == len(r.src.nodes)
-		for k := range r.src.nodes {
-			if _, ok := stored[k]; !ok {
-				complete = false
+		// oracle 2: no outstanding requests <=> each bucket of the store holds the complete
+		// trusted state of that bucket (trie nodes in MerkleTrie, referenced blobs in BytesByHash)
+		complete := true
+		have := 0
+		for _, bkt := range []db.BucketID{db.MerkleTrie, db.BytesByHash} {
+			for k, v := range srcOf(bkt) {
+				if got, ok := r.dst.sets[bkt][k]; ok && bytes.Equal(got, v) {
+					have++
+				} else {
+					complete = false
+				}
 			}
 		}
-		o.Check((un == 0) == complete, "unresolved-zero-iff-complete", "unresolved=%d but complete=%v (stored %d of %d nodes)", un, complete, len(stored), len(r.src.nodes))
+		o.Check((un == 0) == complete, "unresolved-zero-iff-complete", "unresolved=%d but complete=%v (stored %d of %d (bucket,key) pairs of the trusted state)", un, complete, have, r.src.size())
 		if un == 0 {
 			// oracle 3: rebuilt state has the trusted root and contents (fresh trie over the raw destination db)
 			got := map[string][]byte{}
@@ -623,10 +922,10 @@ func (r *c20Runner) Step(t []string, o *Oracle) string {
 			}
 			o.Check(same, "rebuilt-contents-differ", "rebuilt trie has %d pairs, source %d", len(got), len(r.pairs))
 			o.Count("finished-complete")
-			return fmt.Sprintf("complete %d", len(stored))
+			return fmt.Sprintf("complete %d", nstored)
 		}
 		o.Count("finished-incomplete")
-		return fmt.Sprintf("incomplete %d %d", un, len(stored))
+		return fmt.Sprintf("incomplete %d %d", un, nstored)
 	}
 	return "bad-op"
 }
